@@ -12,7 +12,8 @@ struct World {
   int idOf(const std::vector<double> &x){ auto k = fpsym_keys(x); auto it = ids.find(k); int n; if (it != ids.end()) n = it->second; else { n = (int) ids.size(); ids[k] = n; } return (int) fpsym_recorded(n); }
   // default values are functions of the coordinates (not of the numbering) so that the plain and the instrumented build agree on them
   static double mix(const std::vector<double> &x){ double s = 0.37; for (size_t d=0;d<x.size();d++) s += (3.7 + d) * fpsym_concrete(x[d]); s = s - std::floor(s); return s; }
-  double pdfOf(const std::vector<double> &x){ int id = idOf(x); double m = mix(x); return form == 0 ? fpsym_symbolic(0.1 + 1.5 * m, 2000 + id, 0.05, 2.0) : fpsym_symbolic(-2.0 + 4.0 * m, 2000 + id, -3.0, 3.0); }
+  bool zero_region = false;
+  double pdfOf(const std::vector<double> &x){ int id = idOf(x); double m = mix(x); if (zero_region && form == 0 && m < 0.5) return 0.0; return form == 0 ? fpsym_symbolic(0.1 + 1.5 * m, 2000 + id, 0.05, 2.0) : fpsym_symbolic(-2.0 + 4.0 * m, 2000 + id, -3.0, 3.0); }
   void cb_pdf(const std::vector<double> &cand, std::vector<double> &vals){
     for (size_t i=0;i<vals.size();i++){ std::vector<double> x(cand.begin() + i * D, cand.begin() + (i + 1) * D); vals[i] = pdfOf(x); }
     ev.push_back({3, 0.0, cand, false, vals}); }
@@ -51,8 +52,8 @@ void World::runC(int burn, int collect, TasmanianDREAM &state){
 }
 
 int main(int argc, char **argv){
-  int C = atoi(argv[1]), D = atoi(argv[2]), burn = atoi(argv[3]), collect = atoi(argv[4]), form = atoi(argv[5]), update = atoi(argv[6]), split = atoi(argv[7]); int reseed = argc > 8 ? atoi(argv[8]) : 0; int iface = argc > 9 ? atoi(argv[9]) : 0; int twice = argc > 10 ? atoi(argv[10]) : 0;
-  World w; w.iface = iface; w.C = C; w.D = D; w.form = form; w.update = update;
+  int C = atoi(argv[1]), D = atoi(argv[2]), burn = atoi(argv[3]), collect = atoi(argv[4]), form = atoi(argv[5]), update = atoi(argv[6]), split = atoi(argv[7]); int reseed = argc > 8 ? atoi(argv[8]) : 0; int iface = argc > 9 ? atoi(argv[9]) : 0; int twice = argc > 10 ? atoi(argv[10]) : 0; int zero = argc > 11 ? atoi(argv[11]) : 0;   // zero: the density is exactly zero (a concrete 0) on half of the points - compactly supported densities
+  World w; w.iface = iface; w.C = C; w.D = D; w.form = form; w.update = update; w.zero_region = zero != 0;
   std::vector<double> init(C * D); for (int i=0;i<C*D;i++) init[i] = fpsym_symbolic(-0.6 + 0.37 * i, 10 + i, -1.0, 1.0);
   TasmanianDREAM state(C, D); state.setState(init);
   // the initial state is inside the domain by assumption: its points are known to the world with that verdict; their pdf values
@@ -147,7 +148,7 @@ int main(int argc, char **argv){
   if (twice && !reseed){
     // the result depends only on (state, random stream, parameters): a second experiment in the same process, fed the same symbols (same ids in the same
     // order) in ONE run of the combined length, ends in the same state with the same history - nothing may leak from the first experiment
-    World w2; w2.iface = iface; w2.C = C; w2.D = D; w2.form = form; w2.update = update; w2.ids = w.ids;
+    World w2; w2.iface = iface; w2.C = C; w2.D = D; w2.form = form; w2.update = update; w2.ids = w.ids; w2.zero_region = zero != 0;
     TasmanianDREAM state2(C, D); state2.setState(init);
     w2.run(burn, collect, state2);
     std::vector<double> fin2 = state2.getChainState();
